@@ -293,8 +293,12 @@ func runOps(file []byte, c *Case, cached bool, ops []string) (res []string) {
 	return
 }
 
+// curRO is the opt.ReadOptions the reader calls of runOp/iterAll use (nil = defaults); the damage pass also
+// runs with DontFillCache, which exercises the reader's non-caching block path.
+var curRO *opt.ReadOptions
+
 func iterAll(r *table.Reader, slice *util.Range) string {
-	it := r.NewIterator(slice, nil)
+	it := r.NewIterator(slice, curRO)
 	defer it.Release()
 	var sb strings.Builder
 	sb.WriteString("it:")
@@ -323,19 +327,19 @@ func runOp(r *table.Reader, op string) (out string) {
 	parts := strings.Split(op, ":")
 	switch parts[0] {
 	case "f", "F":
-		k, v, err := r.Find(unhex(parts[1]), parts[0] == "F", nil)
+		k, v, err := r.Find(unhex(parts[1]), parts[0] == "F", curRO)
 		if err != nil {
 			return classify(err)
 		}
 		return "ok:" + hx(k) + ":" + hx(v)
 	case "k", "K":
-		k, err := r.FindKey(unhex(parts[1]), parts[0] == "K", nil)
+		k, err := r.FindKey(unhex(parts[1]), parts[0] == "K", curRO)
 		if err != nil {
 			return classify(err)
 		}
 		return "ok:" + hx(k)
 	case "g":
-		v, err := r.Get(unhex(parts[1]), nil)
+		v, err := r.Get(unhex(parts[1]), curRO)
 		if err != nil {
 			return classify(err)
 		}
@@ -680,13 +684,17 @@ func one(seed int64, index int, sz Sizes, s *wp.Sink, st *Stats) {
 		s.Emit(fmt.Sprintf("tbl raw 1 %s %d %d", hx(dam), hb.off, hb.ln), "corrupt")
 		d1 := runOps(dam, c, false, ops)
 		d2 := runOps(dam, c, true, ops)
+		curRO = &opt.ReadOptions{DontFillCache: true}
+		d3 := runOps(dam, c, false, ops)
+		d4 := runOps(dam, c, true, ops)
+		curRO = nil
 		for i := range ops {
 			// ops come in groups f,F,k,K: the unfiltered twin of a filtered lookup is i-1
 			unf := g1[i]
 			if strings.HasPrefix(ops[i], "F:") || strings.HasPrefix(ops[i], "K:") {
 				unf = g1[i-1]
 			}
-			for _, a := range []string{d1[i], d2[i]} {
+			for _, a := range []string{d1[i], d2[i], d3[i], d4[i]} {
 				if a != "corrupt" && a != g1[i] && a != unf {
 					viol("damage", "byte %d (%c block) altered, op %s: answer %s, original %s", p, hb.kind, ops[i], a, g1[i])
 				}
@@ -694,7 +702,7 @@ func one(seed int64, index int, sz Sizes, s *wp.Sink, st *Stats) {
 		}
 		s.Emit(readLine(dam), strings.Join(d1, " "))
 		st.Damaged++
-		st.DamageOps += 2 * len(ops)
+		st.DamageOps += 4 * len(ops)
 		s.Count("damaged block", string(hb.kind))
 	}
 }
